@@ -141,6 +141,18 @@ pub fn handle(s: &mut Session, rest: &str) -> String {
                 }
             }
         }
+        "appendtmp" => {
+            // a.append(cons(b, c)) where the consed object is a temporary no handle refers to
+            let both = format!("{} {}", a1, a2);
+            let v = match hs(s, &both) {
+                Some(v) if v.len() == 3 => v,
+                _ => return "BADCMD".to_string(),
+            };
+            match v[0].append(TulispObject::cons(v[1].clone(), v[2].clone())) {
+                Ok(_) => "OK".to_string(),
+                Err(_) => "ERR".to_string(),
+            }
+        }
         "list" => {
             let both = format!("{} {}", a1, a2);
             let v = match hs(s, &both) {
